@@ -1315,6 +1315,9 @@ func (x *Exec) applyContract(st *State, fr *Frame, ci *callInfo, fn *ssa.Functio
 	cpre := x.envFor(st, nil, callee, nil)
 	cpre.frames = nil
 	for _, r := range spec.Requires {
+		if r.Props != nil {
+			continue // property-tagged preconditions scope only the function's own obligations for that property
+		}
 		g := x.evalClause(cpre, r)
 		x.emit(st, "requires", x.oblName(fmt.Sprintf("call:%s/%s@%s", spec.Name, r.Name, x.posStr(ci.pos))), r.Line, g)
 		st.assume(g, "callee precondition")
